@@ -172,6 +172,32 @@ pub fn run_fuzz(seed: u64, thorough: bool) -> SOut {
             }
         }
     }
+    // footer segments with every byte value in first / last position and JSON-structural content (anything that
+    // inspects the footer before authenticating it meets quotes, backslashes, brackets, NUL, invalid UTF-8)
+    for pr in Proto::all() {
+        let mut feet: Vec<Vec<u8>> = vec![];
+        for b in 0..=255u8 {
+            feet.push(vec![b]);
+            feet.push(vec![b'a', b]);
+            feet.push(vec![b, b'"']);
+        }
+        for sfx in ["{\"a\":\"\\", "\"\\", "\\\"", "{\"kid\":\"x\\", "[", "{", "\"", "{\"a\":{\"a\":{\"a\":1}}}"] {
+            feet.push(sfx.as_bytes().to_vec());
+        }
+        feet.push("[".repeat(40).into_bytes());
+        feet.push("{\"a\":".repeat(40).into_bytes());
+        feet.push(vec![b'['; 70000]);
+        let nonce = conc::random_bytes32(&mut r);
+        let body = match core_mint(pr, &km, &nonce, "{\"data\":\"x\"}", None, None) {
+            Out::Ok(t) => t,
+            _ => format!("{}.AAAA", pr.name()),
+        };
+        for f in feet {
+            let s = format!("{}.{}", body, b64(&f));
+            out.distinct += 1;
+            check_all_entry_points(&s, &km, &mut out, &json!({"footer_bytes_hex": hex::encode(&f[..f.len().min(40)]), "pr": pr.name()}), false);
+        }
+    }
     // arbitrary Unicode strings with 0..6 dots
     let n = if thorough { 20000 } else { 2000 };
     for i in 0..n {
